@@ -114,6 +114,10 @@ func NewReader(db *bolt.DB, sr *io.SectionReader, opts ...metadata.Option) (meta
 		if tocOffset >= 0 && tocSize <= 0 {
 			tocSize = sr.Size() - tocOffset - fSize
 		}
+		if tocOffset >= 0 && (tocSize < 0 || tocSize > sr.Size()-tocOffset) {
+			errs = append(errs, fmt.Errorf("invalid TOC range (offset %d, size %d) in the blob of size %d", tocOffset, tocSize, sr.Size()))
+			continue
+		}
 		if tocOffset >= 0 && tocSize < int64(len(maybeTocBytes)) {
 			maybeTocBytes = maybeTocBytes[:tocSize]
 		}
